@@ -26,7 +26,8 @@ META = {
         'within {NotEnoughData, TooMuchData, InvalidDataLength, InvalidValue, InvalidType}. R3 adds attrs converters / '
         'non-optional validators of the object constructed from parsed values (enum converter fed with a raw integer, '
         'nullable timestamp into a non-optional field) and the single-bit requirement of flag enums. A report carries '
-        'the call path to the raise. May-rule: silent where provenance is unknown.'),
+        'the call path to the raise. May-rule: silent where provenance is unknown.'
+        ' R3 also covers library functions used as attrs converters; R4 decides datetime.fromtimestamp per call site (visibly bounded argument or ValueError/OverflowError/OSError), asn1crypto\'s lazy .native (ValueError/KeyError) and that the LDAP bridge decodes eagerly inside its handler; R5: nullable columns of the data tables are dereferenced only behind a type / None test.'),
     'assumptions': ['summaries of external callables in sa/external.json',
                     'sites listed in sa/reviewed.json (C02) were read by hand; each cites a fact that is re-checked',
                     'AttributeError/TypeError from dynamically typed misuse, RecursionError and MemoryError are not modelled'],
